@@ -542,7 +542,7 @@ double igris_strtod(const char *nptr, char **endptr)
 {
     return igris_atof32(nptr, endptr);
 }
-char *igris_ftoa(float64_t f, char *buf, int8_t precision)
+char *igris_ftoa(float32_t f, char *buf, int8_t precision)
 {
     return igris_f32toa(f, buf, precision);
 }
